@@ -314,3 +314,124 @@ def replay_module_state(args, model):
         return dict(confirmed=True, detail=f'float32 clone after a float64 clone fails: {type(ex).__name__}: {str(ex)[:200]}',
                     inputs=dict(order=['float64', 'float32']))
     return dict(confirmed=False, detail='cache returns distinct classes', inputs={})
+
+
+def no_stale_state_task(T):
+    """fit / path / _glm_fit never READ an attribute that an earlier fit wrote (a fitted attribute: any attribute of self / model that
+    is not a constructor hyper-parameter), except (a) after writing it in the same call on a dominating path, or (b) under a test that
+    mentions the warm-start flag.  Hence, without warm start, the result of a fit is a function of the arguments and of the
+    constructor hyper-parameters only (no state leaks from one fit to the next)."""
+    from pv.frame import Package
+    P = Package(REPO)
+    targets = []
+    for (m, n), c in P.classes.items():
+        bases = {ast.unparse(b).split('.')[-1] for _, cc in P.class_mro(m, c) for b in cc.bases}
+        if not bases & {'BaseEstimator', 'LinearModel', 'RegressorMixin', 'LinearClassifierMixin', 'Lasso_sklearn', 'ElasticNet_sklearn',
+                        'MultiTaskLasso_sklearn', 'LinearSVC_sklearn', 'LogReg_sklearn', 'LogisticRegression_sklearn'}:
+            continue
+        hyper, methods = set(), set()
+        for bm, bc in P.class_mro(m, c):
+            for st in bc.body:
+                if isinstance(st, ast.FunctionDef):
+                    methods.add(st.name)
+                    if st.name == '__init__':
+                        hyper |= {a.arg for a in st.args.args[1:] + st.args.kwonlyargs}
+                        hyper |= {n.attr for n in ast.walk(st) if isinstance(n, ast.Attribute) and isinstance(n.ctx, ast.Store)
+                                  and ast.unparse(n.value) == 'self'}
+        for st in c.body:
+            if isinstance(st, ast.FunctionDef) and st.name in ('fit', 'path'):
+                targets.append((f'{c.name}.{st.name}', st, 'self', hyper, methods))
+    gf = P.funcs.get(('skglm.estimators', '_glm_fit'))
+    if gf is not None:
+        targets.append(('_glm_fit', gf, 'model', None, set()))
+    if len(targets) < 10:
+        T.failed('stale-state/functions-found', f'only {len(targets)} fit/path functions found')
+
+    def chain_of(fn):
+        """node id -> list of (If node, branch) enclosing it"""
+        out = {}
+
+        def walk(body, chain):
+            for s in body:
+                for n in ast.walk(s):
+                    out.setdefault(id(n), chain)
+                if isinstance(s, ast.If):
+                    for n in ast.walk(s.test):
+                        out[id(n)] = chain + [(s, 'test')]
+                    walk(s.body, chain + [(s, 'body')])
+                    walk(s.orelse, chain + [(s, 'orelse')])
+                elif isinstance(s, (ast.For, ast.While, ast.With, ast.Try)):
+                    for blk in ('body', 'orelse', 'finalbody'):
+                        walk(getattr(s, blk, []) or [], chain)
+                    for h in getattr(s, 'handlers', []) or []:
+                        walk(h.body, chain)
+        walk(fn.body, [])
+        return out
+    for q, fn, obj, hyper, methods in targets:
+        chains = chain_of(fn)
+        writes = []      # (attr, lineno, chain)
+        for n in ast.walk(fn):
+            if isinstance(n, ast.Attribute) and isinstance(n.ctx, ast.Store) and ast.unparse(n.value) == obj:
+                writes.append((n.attr, n.lineno, chains.get(id(n), [])))
+        called = {id(n.func) for n in ast.walk(fn) if isinstance(n, ast.Call)}
+        bad = []
+        nreads = 0
+        for n in ast.walk(fn):
+            attr = None
+            if isinstance(n, ast.Attribute) and isinstance(n.ctx, ast.Load) and ast.unparse(n.value) == obj and id(n) not in called:
+                attr = n.attr
+            elif isinstance(n, ast.Call) and ast.unparse(n.func) in ('hasattr', 'getattr') and len(n.args) >= 2 \
+                    and ast.unparse(n.args[0]) == obj and isinstance(n.args[1], ast.Constant):
+                attr = n.args[1].value
+            if attr is None or attr in methods or attr.startswith('__') or (hyper is not None and attr in hyper):
+                continue
+            if hyper is None and not attr.endswith('_'):
+                continue            # `model` in _glm_fit: hyper-parameters have no trailing underscore (sklearn convention)
+            nreads += 1
+            ch = chains.get(id(n), [])
+            guarded = any('warm_start' in ast.unparse(s.test) for s, _ in ch)
+            # the enclosing BoolOp / test itself may carry the guard (`solver.warm_start and hasattr(model, 'coef_')`)
+            dominated = any(a == attr and ln < n.lineno and all(any(s is s2 and b == b2 for s2, b2 in ch) for s, b in wch)
+                            for a, ln, wch in writes)
+            if not (guarded or dominated):
+                bad.append(f'`{obj}.{attr}` read at line {n.lineno}')
+        name = f'stale-state/{q}/reads-no-fitted-attribute-of-an-earlier-fit(unless-warm_start)'
+        if bad:
+            T.failed(name, '; '.join(sorted(set(bad))[:6]), replay=dict(fn='contracts.c18:replay_stale_state', args=dict(function=q)))
+        else:
+            T.ok(name, note=f'{nreads} reads of fitted attributes, all written earlier in the same call or under a warm-start test')
+
+
+add_task('C18', 'frame:no-stale-state', no_stale_state_task)
+
+
+def replay_stale_state(args, model):
+    """refit after changing hyper-parameters / data must equal a fresh fit"""
+    import warnings
+    import numpy as np
+    found = []
+    rng = np.random.RandomState(0)
+    X = rng.randn(30, 5)
+    y = np.sign(rng.randn(30))
+    yr = X @ np.array([1., 2, 0, 0, 0]) + .1 * rng.randn(30)
+    with warnings.catch_warnings():
+        warnings.simplefilter('ignore')
+        try:
+            from skglm.estimators import SparseLogisticRegression
+            m = SparseLogisticRegression(alpha=0.01).fit(X, y)
+            m.fit(X[:, :3], y)
+            if m.n_features_in_ != 3:
+                found.append(f'SparseLogisticRegression refit on 3 features: n_features_in_ == {m.n_features_in_}')
+            from skglm.experimental.sqrt_lasso import SqrtLasso
+            s = SqrtLasso(alpha=0.1, tol=1e-1, max_iter=1).fit(X, yr)
+            s.tol, s.max_iter = 1e-10, 100
+            s.fit(X, yr)
+            f = SqrtLasso(alpha=0.1, tol=1e-10, max_iter=100).fit(X, yr)
+            d = float(np.max(np.abs(s.coef_ - f.coef_)))
+            if d > 1e-9:
+                found.append(f'SqrtLasso refit after changing tol / max_iter differs from a fresh estimator by {d:.3g}')
+        except Exception as ex:      # noqa
+            found.append(f'scenario raised {type(ex).__name__}: {str(ex)[:160]}')
+    if found:
+        return dict(confirmed=True, detail='; '.join(found), inputs=dict(seed=0))
+    return dict(confirmed=False, detail='native refit scenarios equal fresh fits', inputs={})
